@@ -31,6 +31,7 @@ ASSUMPTIONS = [
     'load_model at the end of merge() is replaced by a no-op (loading is C04); channel/template arrays are '
     'concrete here (C12 makes them symbolic)',
     'id dtypes by configuration (int32/int64/uint32/uint64); in-place casting errors are NumPy\'s own rules',
+    'forms added after seeding rounds: merge() called twice on one Merger; int16/uint8/uint16 id files in non-first probes; per-probe TSV present in a subset of probes',
 ]
 STUBS = ['tqdm', 'load_model inside merge() (no-op)', 'np.save/np.load/open (virtual file system)']
 OUTSIDE = ['more probes/spikes than the bound', 'byte-level npy/TSV formats (replays use real files)']
